@@ -14,6 +14,7 @@ import (
 	"sort"
 	"strings"
 	"sync"
+	"sync/atomic"
 	"time"
 
 	"github.com/jensneuse/abstractlogger"
@@ -42,14 +43,27 @@ type Call struct {
 type Recorder struct {
 	mu        sync.Mutex
 	Calls     []Call
-	Frames    [][]byte
+	Frames    [][]byte // what each Flush handed over (everything written since the previous Flush)
 	cur       []byte
 	Completes int
-	busy      int32
-	Overlap   bool // two writer calls were in flight at the same time
+	Overlap   bool // a Write or a second Flush arrived while a Flush was in progress
 	AfterDone bool // a call arrived after Complete
 	onEvent   func(kind string)
+	// SlowFlush, when set, makes a Flush slow (a slow client connection): it is called at the start of every
+	// Flush but the first, before the buffered bytes are handed over, with the number of flushes so far.
+	// Whatever other goroutines write in the meantime is handed over by this Flush as well -- render + flush
+	// of one frame is promised to be one critical section, so nothing may arrive.
+	SlowFlush func(w *Recorder, nflush int)
+	inFlush   int32
+	foreign   int32 // writer calls that arrived while a Flush was in progress
+	flushes   int32 // Flush calls started
 }
+
+// Foreign: number of writer calls that arrived while a Flush was in progress.
+func (w *Recorder) Foreign() int { return int(atomic.LoadInt32(&w.foreign)) }
+
+// FlushCalls: number of Flush calls started so far.
+func (w *Recorder) FlushCalls() int { return int(atomic.LoadInt32(&w.flushes)) }
 
 func (w *Recorder) enter(kind string, data []byte) {
 	w.mu.Lock()
@@ -61,6 +75,12 @@ func (w *Recorder) enter(kind string, data []byte) {
 }
 
 func (w *Recorder) Write(p []byte) (int, error) {
+	if atomic.LoadInt32(&w.inFlush) > 0 {
+		atomic.AddInt32(&w.foreign, 1)
+		w.mu.Lock()
+		w.Overlap = true
+		w.mu.Unlock()
+	}
 	w.enter("write", p)
 	w.mu.Lock()
 	w.cur = append(w.cur, p...)
@@ -69,12 +89,24 @@ func (w *Recorder) Write(p []byte) (int, error) {
 }
 
 func (w *Recorder) Flush() error {
+	n := int(atomic.AddInt32(&w.flushes, 1)) - 1
+	nested := atomic.AddInt32(&w.inFlush, 1) > 1
+	if nested {
+		atomic.AddInt32(&w.foreign, 1)
+		w.mu.Lock()
+		w.Overlap = true
+		w.mu.Unlock()
+	}
 	w.enter("flush", nil)
+	if w.SlowFlush != nil && n > 0 && !nested {
+		w.SlowFlush(w, n)
+	}
 	w.mu.Lock()
 	w.Frames = append(w.Frames, w.cur)
 	w.cur = nil
 	cb := w.onEvent
 	w.mu.Unlock()
+	atomic.AddInt32(&w.inFlush, -1)
 	if cb != nil {
 		cb("flush")
 	}
